@@ -37,6 +37,8 @@ const c20Script = `set -e
 d=$(readlink -f /var/run)
 mount -t tmpfs tmpfs "$d"
 mkdir -p /var/run/eni
+mount -t tmpfs tmpfs /etc
+mkdir -p /etc/eni
 if [ -n "$VERIF_C20_CAPS" ]; then printf '%s' "$VERIF_C20_CAPS" > /var/run/eni/node_capabilities; fi
 exec "$VERIF_C20_SELF" -test.run '^TestVerifConfigChainCNI$' -test.count=1 -test.timeout 1400s
 `
@@ -195,6 +197,62 @@ func TestVerifConfigChainCNI(t *testing.T) {
 	t.Logf("answered %d chain cases in %d namespace groups", total, len(keys))
 }
 
+// c20ViaFiles generates the list the way the node does: input files under /etc/eni (a tmpfs in this private mount namespace),
+// a bpftool stand-in on PATH, the kernel-version hook answering for the case's feature vector, an output file that holds a
+// longer list from an earlier run; returns the content of the output file.
+func c20ViaFiles(configs [][]byte, f *feature) (string, error) {
+	must := func(err error) {
+		if err != nil {
+			panic("harness: " + err.Error())
+		}
+	}
+	list := `{"cniVersion":"0.4.0","name":"terway-chainer","plugins":[`
+	for i, c := range configs {
+		if i > 0 {
+			list += ","
+		}
+		list += string(c)
+	}
+	list += "]}"
+	must(os.WriteFile("/etc/eni/10-terway.conf", configs[0], 0o644))
+	must(os.WriteFile("/etc/eni/10-terway.conflist", []byte(list), 0o644))
+	must(os.WriteFile("/etc/eni/eni_conf", []byte("{}"), 0o644))
+	np := "false"
+	if !f.EnableNetworkPolicy {
+		np = "true"
+	}
+	must(os.WriteFile("/etc/eni/disable_network_policy", []byte(np), 0o644))
+	bin := "/etc/eni/bin"
+	must(os.MkdirAll(bin, 0o755))
+	probe := "{}"
+	if f.EDT {
+		probe = `{"helpers":["bpf_skb_ecn_set_ce"]}`
+	}
+	must(os.WriteFile(bin+"/bpftool", []byte("#!/bin/sh\necho '"+probe+"'\n"), 0o755))
+	oldPath := os.Getenv("PATH")
+	must(os.Setenv("PATH", bin+":"+oldPath))
+	defer os.Setenv("PATH", oldPath)
+	savedK := _checkKernelVersion
+	defer func() { _checkKernelVersion = savedK }()
+	_checkKernelVersion = func(major, minor, patch int) bool {
+		if major == 4 && minor == 19 {
+			return f.EBPF
+		}
+		return true
+	}
+	savedOut := outPutPath
+	defer func() { outPutPath = savedOut }()
+	outPutPath = "/etc/eni/out.conflist"
+	long := `{"cniVersion":"0.4.0","name":"terway-chainer","plugins":[{"type":"terway","eniip_virtual_type":"IPVlan","note":"` + strings.Repeat("x", 6000) + `"},{"type":"portmap"},{"type":"cilium-cni"}]}`
+	must(os.WriteFile(outPutPath, []byte(long), 0o644))
+	if err := processInput(); err != nil {
+		return "", err
+	}
+	b, err := os.ReadFile(outPutPath)
+	must(err)
+	return string(b), nil
+}
+
 // c20Worker runs inside the private namespaces prepared by c20Script.
 func c20Worker(t *testing.T) {
 	cases, err := vt.ReadNDJSON(vt.Env("VERIF_CASES", ""))
@@ -233,6 +291,7 @@ func c20Worker(t *testing.T) {
 	}
 	defer w.Close()
 	_switchDataPathV2 = switchDataPathV2 // the real decision function, as processCNIConfig installs it
+	nfile := 0
 	for _, c := range cases {
 		in := vt.Map(c["in"])
 		if c20Group(in) != os.Getenv("VERIF_C20_GROUP") {
@@ -255,6 +314,17 @@ func c20Worker(t *testing.T) {
 					out["err"] = "error"
 				}
 				return
+			}
+			nfile++
+			if (f.EBPF || !f.EDT) && nfile%5 == 0 { // every fifth case (an exec of the bpftool stand-in each); a feature vector the node-side generator can arrive at (it probes EDT only on an eBPF kernel)
+				// what the node really ends up with: `terway-cli cni` (processInput) reads the ConfigMap files, probes the
+				// kernel and writes the list to the output path - which already holds the list of an earlier generation
+				ftext, ferr := c20ViaFiles(configs, f)
+				if ferr != nil {
+					out["err"] = "processInput: " + ferr.Error()
+					return
+				}
+				text = ftext
 			}
 			ok, ps := c20Project(text)
 			out["valid"], out["plugins"] = ok, ps
